@@ -131,7 +131,9 @@ func buildEnv(cfg envCfg, probeDir, scratch string) (*env, error) {
 	return &env{Environment: e, pid: pid, stderr: stderr, scratch: scratch}, nil
 }
 
-func (e *env) root(p string) string { return fmt.Sprintf("/proc/%d/root/%s", e.pid, strings.TrimPrefix(p, "/")) }
+func (e *env) root(p string) string {
+	return fmt.Sprintf("/proc/%d/root/%s", e.pid, strings.TrimPrefix(p, "/"))
+}
 
 func (e *env) destroy() {
 	if !e.dead {
